@@ -707,7 +707,14 @@ def _elements_to_kwargs(elements, fix_texture, image, prefer_color=None):
 
         from ..path.exchange.misc import edges_to_path
 
-        edges = structured_to_unstructured(elements["edge"]["data"])
+        edge_data = elements["edge"]["data"]
+        if isinstance(edge_data, dict):
+            # ASCII elements are loaded as a dict of columns
+            edges = np.column_stack(
+                [edge_data[k] for k in elements["edge"]["properties"].keys()]
+            )
+        else:
+            edges = structured_to_unstructured(edge_data)
         kwargs.update(edges_to_path(edges, kwargs["vertices"]))
 
     return kwargs
